@@ -522,6 +522,9 @@ func (c *Compiler) listElemCode(typ *runtime.Type) (Code, error) {
 
 func (c *Compiler) mapKeyCode(typ *runtime.Type) (Code, error) {
 	switch {
+	case typ.Kind() == reflect.String:
+		// keys of any string type are used directly, even when the type is a TextMarshaler
+		return c.stringCode(typ, false)
 	case c.implementsMarshalText(typ):
 		return c.marshalTextCode(typ)
 	}
